@@ -320,6 +320,27 @@ func main() {
 			g2 := exec.Command(*goose, "-out", out2, "-dir", root, "-ignore-errors", "./...")
 			g2.Env = goEnv()
 			g2.Run()
+			// a package translated together with the others of its module (they share dependencies
+			// and are translated at the same time) gets the file it gets when translated alone
+			for _, p := range produced {
+				alone, _ := os.ReadFile(filepath.Join(outDir, p))
+				together, err := os.ReadFile(filepath.Join(out2, p))
+				if err == nil && string(alone) != string(together) {
+					a, b := strings.Split(string(alone), "\n"), strings.Split(string(together), "\n")
+					k := 0
+					for k < len(a) && k < len(b) && a[k] == b[k] {
+						k++
+					}
+					la, lb := "<end of file>", "<end of file>"
+					if k < len(a) {
+						la = a[k]
+					}
+					if k < len(b) {
+						lb = b[k]
+					}
+					fmt.Fprintf(w, "M %s\n", hx(fmt.Sprintf("%s differs when the whole module is translated in one call (goose ./...): line %d is %q alone and %q together", p, k+1, la, lb)))
+				}
+			}
 			for _, p := range produced {
 				data, _ := os.ReadFile(filepath.Join(outDir, p))
 				for _, line := range strings.Split(string(data), "\n") {
